@@ -233,7 +233,7 @@ pub struct Knobs {
     pub mem_limit: u64,
     pub policy: Policy,
     pub policy_seed: u64,
-    /// Short reads/writes: probability in percent.
+    /// Partial non-blocking writes beyond PIPE_BUF (the only short I/O a POSIX pipe gives): probability in percent.
     pub short_io_pct: u64,
     /// kill() of an exited child reports InvalidInput: probability in percent.
     pub kill_dead_err_pct: u64,
@@ -1041,7 +1041,7 @@ impl Harness for C18 {
     fn assumptions(&self) -> Vec<String> {
         vec![
             "The simulated pipe/process/timer semantics are POSIX-like: write to a pipe whose reader is gone = EPIPE, read after the writer is gone and the buffer is drained = EOF, kill closes the child's ends at once".into(),
-            "One child process = one controlled OS thread running the real become_child; memory exhaustion is modelled as the service asking its private Alloc for limit+1 bytes and aborting on null".into(),
+            "One child process = one controlled OS thread running the real become_child; the child's memory limit is a private real Alloc charged by the test service (AllocBeyond asks for limit+1 bytes and aborts on null) and, through two hook lines in frame.rs, by the frame buffer and the serialised reply, so a payload that does not fit makes the child abort while reading, processing or answering".into(),
             "Simulated time advances only when no party can run; interleavings are explored at seam granularity (pipe ops, exit, sleep, await points), not inside straight-line code".into(),
             "Seeded sampling: a clean batch is evidence, not proof".into(),
         ]
